@@ -324,12 +324,14 @@ void harness(void) { void* s; void* c; g_consumes = g_comb_decrefs = 0; Impl(s, 
     reg_stubs = '''enum { KP_Owned, KP_Managed };
 unsigned long g_next_input;      /* iterator position: inputs are taken in order, each released from its future exactly once */
 unsigned long g_registered, g_attached, g_inline, g_comb_decrefs; unsigned long g_last_reg_i, g_last_cb_i, g_last_consume_i; unsigned char g_attach_ok;
-Core* g_cores;
+Core* g_cores; unsigned char g_unique_cores;   /* IsUniqueCore<Core>::Value of this instantiation */
 Core* TAKE_INPUT(void) __CPROVER_requires(g_next_input < g.count) __CPROVER_assigns(g_next_input) __CPROVER_ensures(RET == &g_cores[OLD(g_next_input)] && g_next_input == OLD(g_next_input) + 1);
 void Register(void* st, unsigned long i, Core* core) __CPROVER_requires(core == &g_cores[i] && i == g_registered) __CPROVER_assigns(g_registered) __CPROVER_ensures(g_registered == OLD(g_registered) + 1);
 int SetCallbackAt(Core* core, unsigned long cb_index)
 __CPROVER_requires(core == &g_cores[g_attached + g_inline] && (CB_PER_INPUT ? cb_index == g_attached + g_inline : 1))     /* input i gets callback i */
 __CPROVER_requires(CORE_POLICY == KP_Owned ? g_registered == g_attached + g_inline + 1 : 1)                            /* Owned: registered before it can complete */
+/* one callback node can be linked into one shared core's callback list only: a node is reused for a further input only with unique cores (single slot, no link) */
+__CPROVER_requires(CB_PER_INPUT || g_unique_cores || g_attached + g_inline == 0)
 __CPROVER_assigns(g_attached, g_inline, g_attach_ok)
 __CPROVER_ensures((RET == 0 || RET == 1) && g_attached == OLD(g_attached) + RET && g_inline == OLD(g_inline) + !RET && g_attach_ok == RET);
 void ConsumeDyn(void* st, Core* core, unsigned long i)
@@ -357,6 +359,8 @@ void CombDecRef(void* self) __CPROVER_requires(g_inline == g_comb_decrefs + 1) _
         for kp in ('KP_Owned', 'KP_Managed'):
             src = COMMON + '#define CORE_POLICY %s\n#define CB_PER_INPUT %d\n' % (kp, per) + reg_stubs + hdefs + '''void Set(void* self, int begin, size_t count)
 __CPROVER_requires(count == g.count && count >= 1 && count <= (1UL << 40) && g_next_input == 0 && g_registered == 0 && g_attached == 0 && g_inline == 0 && g_comb_decrefs == 0)
+/* SingleCombinator::Set(begin, count) is instantiated for unique cores only: established by its only caller, the range-form When (job When.dynamic, COMB_SET precondition) */
+__CPROVER_requires(CB_PER_INPUT || g_unique_cores)
 __CPROVER_assigns(g_next_input, g_registered, g_attached, g_inline, g_attach_ok, g_last_consume_i, g_comb_decrefs)
 /* registration (any count): every input is taken from its future exactly once, input i is registered / attached under index i, an input that was already complete is consumed
    inline under its index and drops one combinator reference right away - so the references still outstanding equal the inputs still pending */
@@ -364,34 +368,108 @@ __CPROVER_ensures(g_next_input == count && g_attached + g_inline == count && g_c
 __CPROVER_ensures(CORE_POLICY == KP_Owned ? g_registered == count : g_registered == 0)
 {''' + c + '''}
 void harness(void) { g.count = nondet_ulong(); __CPROVER_assume(g.count >= 1 && g.count <= (1UL << 40)); g_cores = malloc(sizeof(Core) * g.count); __CPROVER_assume(g_cores != 0);
-  g_next_input = g_registered = g_attached = g_inline = g_comb_decrefs = 0; void* s; Set(s, 0, g.count); if (g_inline) VF_CANARY("some already complete"); else VF_CANARY("all pending"); }
+  g_next_input = g_registered = g_attached = g_inline = g_comb_decrefs = 0; g_unique_cores = CB_PER_INPUT ? (nondet_uchar() & 1) : 1; void* s; Set(s, 0, g.count); if (g_inline) VF_CANARY("some already complete"); else VF_CANARY("all pending"); }
 '''
             job('%s.%s' % (nm, kp[3:]), [b] + hb, src, 'Set', ['TAKE_INPUT', 'Register', 'SetCallbackAt', 'ConsumeDyn', 'CombDecRef'], canaries=2, loops=True,
                 expect=[r'postcondition', r'invariant after step|loop_invariant_step', r'precondition'], timeout=300)
-    # When (dynamic form): empty input => invalid future, no allocation; else one contract + one combinator with `count` references
-    b_wd = find_body(repo, F_WHEN, r'auto\s+When\s*\(\s*Iterator\s+begin\s*,\s*std::size_t\s+count\s*\)', 'when::When(begin, count)')
+    # When (both entry functions): empty input => invalid future, no allocation; else one contract + one combinator with one reference per input, and the compile-time
+    # choice of the combinator class is TRANSLATED (not dropped): `std::conditional_t<COND, A, B>` becomes `(COND') ? K_A : K_B` over free configuration predicates, and the
+    # contract demands what SingleCombinator relies on (one callback node for all inputs => no index, and cores that need no list link of their own)
     from vf.cxx2c import drop_pinned
-    t = drop_pinned('when::When(begin, count)', b_wd.text, ['using Core = typename Value::Core;', 'using S = Strategy<F, OutputValue, OutputError, Core>;',
-        'using FinalCombinator = std::conditional_t<!kIsOrdered<S::kConsumePolicy> && IsUniqueCore<Core>::Value, SingleCombinator<S, Core>, DynamicCombinator<S, Core>>;'])
-    t = re.sub(r'static_assert\([^;]*\)\s*;', '', t)
-    pre = [(r'return\s+Future<OutputValue,\s*OutputError>\{\s*nullptr\s*\}\s*;', 'return INVALID_FUTURE();', 0), (r'auto\s*\[\s*f\s*,\s*p\s*\]\s*=\s*MakeContract<OutputValue,\s*OutputError>\(\)\s*;', 'void* f = MAKE_CONTRACT();', 0),
-           (r'auto\s*\*\s*combinator\s*=\s*MakeShared<FinalCombinator>\(\s*([^,;]+?)\s*,\s*([^,;]+?)\s*,\s*std::move\(p\)\s*\)\.Release\(\)\s*;', r'void* combinator = MAKE_COMBINATOR(\1, \2);', 0),
-           (r'combinator->Set\(\s*begin\s*,\s*count\s*\)\s*;', 'COMB_SET(combinator, count);', 0), (r'return\s+std::move\(f\)\s*;', 'return f;', 0)]
-    c = Rewriter('When(dynamic)', pre=pre).rewrite(t)
-    src = COMMON + '''unsigned g_allocs, g_sets; unsigned long g_comb_refs, g_comb_count, g_set_count; void* g_future;
+    ATOMS = [(r'kIsOrdered<\s*S::kConsumePolicy\s*>', 'g_ordered'), (r'IsUniqueCore<\s*Core\s*>::Value', 'g_unique'), (r'IsSharedCore<\s*Core\s*>::Value', '(!g_unique)'),
+             (r'CoreSignature<\s*typename\s+Futures::Core\s*\.\.\.\s*>::kTotalCount\s*==\s*1', 'g_one_node'), (r'\btrue\b', '1'), (r'\bfalse\b', '0')]
+
+    def selection(name, text):
+        ms = list(re.finditer(r'using\s+FinalCombinator\s*=\s*std::conditional_t<', text))
+        if len(ms) != 1:
+            raise ExtractionBreak('%s: the combinator selection `using FinalCombinator = std::conditional_t<...>` was not found exactly once' % name)
+        st = ms[0].end() - 1
+        depth, i, parts, last = 0, st, [], st + 1
+        while i < len(text):
+            ch = text[i]
+            if ch in '<(':
+                depth += 1
+            elif ch in '>)':
+                depth -= 1
+                if depth == 0:
+                    parts.append(text[last:i]); break
+            elif ch == ',' and depth == 1:
+                parts.append(text[last:i]); last = i + 1
+            i += 1
+        end = text.find(';', i)
+        if len(parts) != 3 or end < 0:
+            raise ExtractionBreak('%s: combinator selection is not of the form conditional_t<COND, A, B>' % name)
+        cond = parts[0]
+        for rx, rep in ATOMS:
+            cond = re.sub(rx, rep, cond)
+        if re.search(r'[^\s!&|()\w]', cond) or [w for w in re.findall(r'[A-Za-z_]\w*', cond) if w not in ('g_ordered', 'g_unique', 'g_one_node')]:
+            raise ExtractionBreak('%s: combinator selection condition has a term outside the translated vocabulary: %s' % (name, ' '.join(parts[0].split())))
+        kinds = []
+        for pt in parts[1:]:
+            m = re.match(r'\s*(SingleCombinator|DynamicCombinator|StaticCombinator)\s*<', pt)
+            if not m:
+                raise ExtractionBreak('%s: unknown combinator class in the selection: %s' % (name, ' '.join(pt.split())))
+            kinds.append('K_' + m.group(1))
+        return text[:ms[0].start()] + text[end + 1:], '#define FINAL_KIND ((%s) ? %s : %s)\n' % (' '.join(cond.split()), kinds[0], kinds[1])
+
+    WHEN_STUBS = COMMON + """unsigned g_allocs, g_sets; unsigned long g_comb_refs, g_comb_count, g_set_count; void* g_future;
+enum { K_SingleCombinator = 1, K_DynamicCombinator, K_StaticCombinator }; unsigned char g_ordered, g_unique, g_one_node, g_comb_kind;
 #define INVALID_FUTURE() ((void*)0)
 void* MAKE_CONTRACT(void) __CPROVER_assigns(g_allocs, g_future) __CPROVER_ensures(g_allocs == OLD(g_allocs) + 1 && RET == g_future && RET != 0);
-void* MAKE_COMBINATOR(unsigned long refs, unsigned long count) __CPROVER_assigns(g_allocs, g_comb_refs, g_comb_count) __CPROVER_ensures(g_allocs == OLD(g_allocs) + 1 && g_comb_refs == refs && g_comb_count == count && RET != 0);
-void COMB_SET(void* c, unsigned long count) __CPROVER_requires(c != 0) __CPROVER_assigns(g_sets, g_set_count) __CPROVER_ensures(g_sets == OLD(g_sets) + 1 && g_set_count == count);
-void* When(int begin, size_t count)
-__CPROVER_requires(g_allocs == 0 && g_sets == 0)
-__CPROVER_assigns(g_allocs, g_future, g_comb_refs, g_comb_count, g_sets, g_set_count)
-/* an empty input set yields an invalid future and allocates nothing (C09, C20); otherwise one contract and one combinator holding exactly one reference per input */
-__CPROVER_ensures(count == 0 ? (RET == (void*)0 && g_allocs == 0 && g_sets == 0) : (RET == g_future && g_allocs == 2 && g_comb_refs == count && g_comb_count == count && g_sets == 1 && g_set_count == count))
-{''' + c + '''}
-void harness(void) { size_t n; g_allocs = g_sets = 0; void* f = When(0, n); if (f) VF_CANARY("some inputs"); else VF_CANARY("empty input"); }
-'''
-    job('When.dynamic', b_wd, src, 'When', ['MAKE_CONTRACT', 'MAKE_COMBINATOR', 'COMB_SET'], canaries=2)
+void* MAKE_COMBINATOR(int kind, unsigned long refs, unsigned long count) __CPROVER_assigns(g_allocs, g_comb_refs, g_comb_count, g_comb_kind)
+  __CPROVER_ensures(g_allocs == OLD(g_allocs) + 1 && g_comb_refs == refs && g_comb_count == count && g_comb_kind == kind && RET != 0);
+void COMB_SET(void* c, unsigned long count) __CPROVER_requires(c != 0)
+/* C09: a SingleCombinator registers ITSELF (one InlineCore node) as the callback of every input and consumes without an index: legal only for strategies that need no index and for
+   inputs that one node can serve (range form: unique cores, whose single callback slot needs no list link; a shared core links its callbacks through the node's `next`, and one
+   node can be in one list only.  Static form: CoreSignature::kTotalCount == 1) - this is the precondition of SingleCombinator::Set, discharged here at its only call sites */
+__CPROVER_requires(g_comb_kind == K_SingleCombinator ==> (!g_ordered && NODE_OK))
+__CPROVER_requires(g_comb_kind == K_DynamicCombinator || g_comb_kind == K_StaticCombinator || g_comb_kind == K_SingleCombinator)
+__CPROVER_assigns(g_sets, g_set_count) __CPROVER_ensures(g_sets == OLD(g_sets) + 1 && g_set_count == count);
+"""
+    POST = ('/* an empty input set yields an invalid future and allocates nothing (C09, C20); otherwise one contract and one combinator holding exactly one reference per input */\n'
+            '__CPROVER_ensures(count == 0 ? (RET == (void*)0 && g_allocs == 0 && g_sets == 0) : (RET == g_future && g_allocs == 2 && g_comb_refs == count && g_comb_count == count && g_sets == 1 && g_set_count == count))\n')
+    HARN = ('void harness(void) { size_t n; g_allocs = g_sets = 0; g_ordered = nondet_uchar() & 1; g_unique = nondet_uchar() & 1; g_one_node = nondet_uchar() & 1; void* f = When(0, n);\n'
+            '  if (f && g_comb_kind == K_SingleCombinator) VF_CANARY("single node"); else if (f) VF_CANARY("node per input"); else VF_CANARY("empty input"); }\n')
+
+    def when_dynamic():
+        b_wd = find_body(repo, F_WHEN, r'auto\s+When\s*\(\s*Iterator\s+begin\s*,\s*std::size_t\s+count\s*\)', 'when::When(begin, count)')
+        t, kind = selection('when::When(begin, count)', b_wd.text)
+        t = drop_pinned('when::When(begin, count)', t, ['using Core = typename Value::Core;', 'using S = Strategy<F, OutputValue, OutputError, Core>;'])
+        t = re.sub(r'static_assert\([^;]*\)\s*;', '', t)
+        pre = [(r'return\s+Future<OutputValue,\s*OutputError>\{\s*nullptr\s*\}\s*;', 'return INVALID_FUTURE();', 0), (r'auto\s*\[\s*f\s*,\s*p\s*\]\s*=\s*MakeContract<OutputValue,\s*OutputError>\(\)\s*;', 'void* f = MAKE_CONTRACT();', 0),
+               (r'auto\s*\*\s*combinator\s*=\s*MakeShared<FinalCombinator>\(\s*([^,;]+?)\s*,\s*([^,;]+?)\s*,\s*std::move\(p\)\s*\)\.Release\(\)\s*;', r'void* combinator = MAKE_COMBINATOR(FINAL_KIND, \1, \2);', 0),
+               (r'combinator->Set\(\s*begin\s*,\s*count\s*\)\s*;', 'COMB_SET(combinator, count);', 0), (r'return\s+std::move\(f\)\s*;', 'return f;', 0)]
+        c = Rewriter('When(dynamic)', pre=pre).rewrite(t)
+        src = '#define NODE_OK g_unique\n' + WHEN_STUBS + kind + 'void* When(int begin, size_t count)\n__CPROVER_requires(g_allocs == 0 && g_sets == 0)\n' \
+            '__CPROVER_assigns(g_allocs, g_future, g_comb_refs, g_comb_count, g_comb_kind, g_sets, g_set_count)\n' + POST + '{' + c + '}\n' + HARN
+        job('When.dynamic', b_wd, src, 'When', ['MAKE_CONTRACT', 'MAKE_COMBINATOR', 'COMB_SET'], canaries=3)
+
+    def when_static():
+        b_ws = find_body(repo, F_WHEN, r'auto\s+When\s*\(\s*Futures\s*\.\.\.\s*futures\s*\)', 'when::When(futures...)')
+        t = b_ws.text
+        # `if constexpr (sizeof...(Futures) == 0) {A} else {B}`: both branches are kept, the pack size becomes the symbolic `count`
+        t, k = re.subn(r'if\s+constexpr\s*\(\s*sizeof\.\.\.\(Futures\)\s*==\s*0\s*\)', 'if (count == 0)', t)
+        if k != 1:
+            raise ExtractionBreak('when::When(futures...): the empty-pack test `if constexpr (sizeof...(Futures) == 0)` was not found exactly once')
+        t, kind = selection('when::When(futures...)', t)
+        t = drop_pinned('when::When(futures...)', t, ['using Head = typename head_t<Futures...>::Core;', 'using Value = typename Head::Value;', 'using Error = typename Head::Error;',
+            'using InputCore = std::conditional_t<(... && std::is_same_v<Head, typename Futures::Core>), Head, std::conditional_t<(... && (std::is_same_v<Value, typename Futures::Core::Value> && '
+            'std::is_same_v<Error, typename Futures::Core::Error>)), detail::ResultCore<Value, Error>, detail::InlineCore>>;', 'using S = Strategy<F, OutputValue, OutputError, InputCore>;'])
+        pre = [(r'return\s+Future<OutputValue,\s*OutputError>\{\s*nullptr\s*\}\s*;', 'return INVALID_FUTURE();', 0), (r'auto\s*\[\s*f\s*,\s*p\s*\]\s*=\s*MakeContract<OutputValue,\s*OutputError>\(\)\s*;', 'void* f = MAKE_CONTRACT();', 0),
+               (r'sizeof\.\.\.\(Futures\)', 'count', 0),
+               (r'auto\s*\*\s*combinator\s*=\s*MakeShared<FinalCombinator>\(\s*([^,;]+?)\s*,\s*([^,;]+?)\s*,\s*std::move\(p\)\s*\)\.Release\(\)\s*;', r'void* combinator = MAKE_COMBINATOR(FINAL_KIND, \1, \2);', 0),
+               # every future of the pack gives up its core exactly once (pack expansion): the count of cores handed over is the pack size
+               (r'combinator->Set\(\s*\*\s*futures\.GetCore\(\)\.Release\(\)\s*\.\.\.\s*\)\s*;', 'COMB_SET(combinator, count);', 0), (r'return\s+std::move\(f\)\s*;', 'return f;', 0)]
+        c = Rewriter('When(static)', pre=pre).rewrite(t)
+        src = '#define NODE_OK g_one_node\n' + WHEN_STUBS + kind + 'void* When(int futures, size_t count)\n__CPROVER_requires(g_allocs == 0 && g_sets == 0)\n' \
+            '__CPROVER_assigns(g_allocs, g_future, g_comb_refs, g_comb_count, g_comb_kind, g_sets, g_set_count)\n' + POST + '{' + c + '}\n' + HARN
+        job('When.static', b_ws, src, 'When', ['MAKE_CONTRACT', 'MAKE_COMBINATOR', 'COMB_SET'], canaries=3)
+
+    for fn in (when_dynamic, when_static):
+        try:
+            fn()
+        except ExtractionBreak as e:      # one entry function outside the recipe leaves the other jobs of this unit decided
+            ctx.breaks.append(str(e))
     return out
 
 
@@ -400,4 +478,6 @@ def replay(ctx, res, failed, rec):
     fn = res.job.meta.get('fn', '')
     if fn.startswith('AllTuple.FirstFail'):
         return run_driver(ctx, 'whenall_tuple.cpp', timeout=60)
+    if fn.startswith('When.') and 'COMB_SET' in ' '.join(o.desc for o in failed):
+        return run_driver(ctx, 'whenall_shared_overlap.cpp', timeout=60)
     return None, 'no sequential witness driver for this obligation'
